@@ -60,6 +60,9 @@ def gen(rng, tier, index):
         pool = messages.corpus()
         prime = [rng.choice(pool)["data"].hex() for _ in range(rng.randint(1, 3))] + prime
     sc = {"prime": prime, "remembered": remembered, "entry": entry, "data": data.hex(), "kind": desc["k"], "src": desc.get("src")}
+    if rng.random() < 0.2:
+        # the history also went through decode_message(): message objects, including ones without payload
+        sc["prime_msgs"] = [rng.choice(["", "", "0201", rng.choice(messages.corpus())["data"].hex()]) for _ in range(rng.randint(1, 3))]
     if entry == "message_p1" and rng.random() < 0.5:
         sc["ident"] = messages.weird_ident(rng).hex()
     yield sc
@@ -88,6 +91,8 @@ def execute(sc):
     try:
         for p in sc["prime"]:
             dec.decode_message_payload(bytes.fromhex(p))
+        for p in sc.get("prime_msgs") or ():
+            dec.decode_message(decoder_rig.as_dlms(bytes.fromhex(p)))
     except Exception:  # noqa: BLE001
         void = True
     try:
@@ -155,6 +160,8 @@ def candidates(sc):
             yield dict(copy.deepcopy(sc), prime=red)
     if sc.get("ident"):
         yield dict(copy.deepcopy(sc), ident=None)
+    if sc.get("prime_msgs"):
+        yield {k: v for k, v in copy.deepcopy(sc).items() if k != "prime_msgs"}
     if sc["entry"] != "payload":
         yield dict(copy.deepcopy(sc), entry="payload")
     data = bytes.fromhex(sc["data"])
